@@ -184,7 +184,7 @@ def one_history(ctx, shard, i, rng, idx):
                     ctx.sample({"mode": mode, "map": mname, "chunksize": cs, "nnz": nnz, "passes": npass}, limit=6)
         # -------- the CLI path: `cooler balance -p 2` (real Pool.imap_unordered), stored column == API result
         cid = f"h:{shard['sub']}:{i}:cli"
-        if ctx.want(cid) and "x0" not in opts and "blacklist" not in opts and opts["rescale_marginals"] and not tie:
+        if ctx.want(cid) and "x0" not in opts and opts["rescale_marginals"] and not tie:
             with ctx.case(cid, dict(base_desc, via="cooler balance")) as c:
                 from click.testing import CliRunner
                 from cooler.cli import cli
@@ -200,13 +200,12 @@ def one_history(ctx, shard, i, rng, idx):
                     args.append("--cis-only")
                 elif mode == "trans":
                     args.append("--trans-only")
-                if "blacklist" in opts:
-                    bl = gen.bt_bins_list(bt)
+                if opts.get("blacklist"):
                     bf = os.path.join(ctx.tmp, f"bl_{shard['sub']}_{i}.bed")
                     with open(bf, "w") as fh:
-                        for b_ in opts["blacklist"]:
-                            fh.write(f"{bl[b_][0]}\t{bl[b_][1]}\t{bl[b_][2]}\n")
+                        fh.writelines(f"{a}\t{b}\t{e}\n" for a, b, e in gen.blacklist_bed(rng, bt, opts["blacklist"]))
                     args += ["--blacklist", bf]
+                    c.feature("cli-balance:blacklist-bed")
                 r = CliRunner().invoke(cli, args)
                 c.feature("via:cli-balance", f"cli-balance:nproc={npr}")
                 if r.exit_code != 0:
